@@ -1825,6 +1825,7 @@ class t2data(object):
         self.delete_section('LINEQ')
         # Convert MOPs:
         warnings = []
+        mulkom_conductivity = self.parameter['option'][10] == 2
         if self.parameter['option'][10] == 2:
             self.parameter['option'][10] = 0
             self.convert_mulkom_heat_conductivity()
@@ -1843,7 +1844,8 @@ class t2data(object):
             ismulkom = self.simulator.startswith('MULKOM')
             mulkom_compatibility = self.parameter['option'][23] in [0, 1]
             if (isat2 or ismulkom) and mulkom_compatibility:
-                self.convert_mulkom_heat_conductivity()
+                # (don't convert twice:)
+                if not mulkom_conductivity: self.convert_mulkom_heat_conductivity()
                 warnings.append('MOP(23)>0: MULKOM/TOUGH2 backward compatibility')
             self.parameter['option'][23] = 0
         if self.parameter['option'][24] > 0:
@@ -1976,9 +1978,10 @@ class t2data(object):
         differently.
         """
         if MP: self.filename = 'INFILE'
+        # (parameter conversion depends on the simulator name:)
+        self.convert_AUTOUGH2_parameters_to_TOUGH2(warn, MP)
         self.simulator = ''
         self.delete_section('SIMUL')
-        self.convert_AUTOUGH2_parameters_to_TOUGH2(warn, MP)
         self.convert_AUTOUGH2_generators_to_TOUGH2(warn)
         self.convert_short_to_history()
 
